@@ -310,6 +310,9 @@ class Report:
         self.extra = {}
         self._n = 0
         os.makedirs(os.path.join(VERIF, 'replays'), exist_ok=True)
+        for old in os.listdir(os.path.join(VERIF, 'replays')):
+            if old.startswith(pid + '-') and old.endswith('.json'):
+                os.remove(os.path.join(VERIF, 'replays', old))
         os.makedirs(os.path.join(VERIF, 'evidence'), exist_ok=True)
 
     # -- counting
